@@ -9,7 +9,7 @@ stripped text, ISO 8601 timestamp of the same instant.
 """
 import calendar
 
-from mc import alphabets, core, synth, treecheck
+from mc import alphabets, core, env, synth, treecheck
 
 ID = "C16"
 LEVEL = "exploration"
@@ -67,6 +67,12 @@ def plan(tier, seed):
                 cases.append({"spec": {**SPEC, "vol": {"n_fp": n}}, "devs": devs, "label": f"all text fields of {'+'.join(rec_sel)} {label}, {n} file pointers"})
     for ts in timestamps(tier):
         cases.append({"spec": SPEC, "devs": [["vol", "volume_descriptor", DT_FIELD, ts]], "label": f"creation={ts}"})
+    # the process' local time zone must not matter: hours around the switch-over on every day on which one of four zones
+    # (Europe, North America, South America, Australia) skips or repeats an hour
+    for rule in env.TZ_RULES:
+        for mo, d in env.TZ_DAYS:
+            for hh in (0, 1, 2, 3, 23):
+                cases.append({"spec": SPEC, "devs": [["vol", "volume_descriptor", DT_FIELD, f"2021{mo:02d}{d:02d}{hh:02d}300512"]], "tz": rule, "label": f"creation=2021{mo:02d}{d:02d}{hh:02d}300512 under TZ={rule}"})
     for n in range(0, 13):
         sp = {**SPEC, "vol": {"n_fp": n}}
         cases.append({"spec": sp, "devs": [], "label": f"file pointers={n}"})
@@ -79,7 +85,8 @@ def plan(tier, seed):
 
 def execute(case):
     spec = treecheck.spec_from_case(case)
-    out = treecheck.check_spec(spec, only=["/@"])
+    with env.timezone(case.get("tz")):
+        out = treecheck.check_spec(spec, only=["/@"])
     fails = out["failures"]
     root_extra = [k for k in out.get("unverified", []) if k.startswith("/@")]
     for k in root_extra:
@@ -95,7 +102,7 @@ def run(res, tier, seed):
         "every text field of volume descriptor + text record x {blank, 1 char, full width, inner spaces, right-justified, punctuation,"
         " quotes, mixed case, padded}; 6 all-fields-at-once products; creation timestamp over years{2014,2016,2049} x days"
         " {0101,0228,0229,0301,1231} x h{00,23} x m{00,59} x s{00,59} x cs{00,01,99} (quick: every 7th); 0..12 file pointers with"
-        " the last pointer rewritten. Root attributes must be exactly the documented set with the reference values."
+        " the last pointer rewritten; creation times at hours 0-3 and 23 of eight daylight-saving switch-over days under four local time zones. Root attributes must be exactly the documented set with the reference values."
     )
     res.assumptions = ["printable ASCII contents only (the format's character class)"]
     core.run_cases(res, __name__, plan(tier, seed))
